@@ -76,6 +76,18 @@ CHECKS = {
    technique="runtime monitor: 1100-bit big.Float reference (error < 2^-900), error measured in units of the format spacing at the true result; exact-result oracle for exactly representable cases; analytic side decision inside the 1e-100 guard band; per DefaultRoundingMode phase",
    text="Exp, Exp2, Exp10, Expm1, Log, Log2, Log10, Log1p are observed on arguments from 1e-6176 to beyond the overflow thresholds (incl. the region where internal 16-bit exponents wrap), near 0/1/-1, exact powers and their neighbours, every integer of the admissible range for Exp2/Exp10 (thorough), every decimal exponent x leading-two-digit table slot for the logarithms, cohort variants, under all six default modes; each result must be within one format unit of the reference at the true result, exactly representable results exact under nearest-even, Inf/zero only beyond the range. Known open findings (pinned by the repository's own vectors or spread over the working arithmetic) are matched by narrow argument predicates. Exploration.",
    ref="DESIGN.md §5 C16"),
+ "C17": dict(
+   technique="runtime monitor: exact integer inequality oracle (|r| -/+ (1/2+1e-20)u)^k vs |x| in big.Int, exact-root oracle for constructed perfect powers",
+   text="Sqrt and Cbrt are observed over the whole exponent range (all parity / mod-3 classes), coefficient shapes, perfect squares and cubes with their +/-1-unit neighbours, (m+1/2)^k shapes, subnormal and range-end arguments, zeros and infinities; each result is decided exactly against the stated midpoint margin, must carry the right sign, and perfect powers must give exact roots. Judged under the default nearest-even mode. Exploration.",
+   ref="DESIGN.md §5 C17"),
+ "C18": dict(
+   technique="runtime monitor: exact oracle for the shortcut ladder (y=0, 1, -1, powers of ten, +/-0.5, negative bases) and 1100-bit exp(y ln|x|) reference with the statement's own tolerance; Pow vs PowWithMode bit-equality observer; per DefaultRoundingMode phase",
+   text="PowWithMode (6 modes) and Pow are observed on exponents of every shortcut class (all cohorts of 0, +/-1, +/-0.5, integers with the parity digit at every position, half-integers, tiny and huge) against bases that are powers of ten in every cohort, near 1, negative, at the range ends and general, and on pairs aimed at the overflow/underflow thresholds; shortcut results must be exact, other results within u + |t||y|(4e-37|ln|x||+1e-55), Inf/zero only when that allowance reaches beyond the range, never NaN from finite operands except negative base with non-integer exponent. Exploration.",
+   ref="DESIGN.md §5 C18"),
+ "C19": dict(
+   technique="runtime monitor: metamorphic differential (same call on two encodings of the same operand values, value-level result signatures compared) over ~150 operation variants, plus a cohort-enumeration oracle for Canonical",
+   text="Every exported arithmetic (6 modes), comparison, elementary, rounding, conversion, formatting and encoding operation is executed on an operand set and on alternative cohort members (random and extreme) of the same values; class, sign and value of all results (numerals read by the harness for texts) must agree. Canonical is judged for value/sign preservation, idempotence, identical bits iff equal value and sign, exponent closest to zero by cohort enumeration, and the NaN/Inf/zero normal forms. Exploration.",
+   ref="DESIGN.md §5 C19"),
 }
 
 PENDING = "monitor for this property is not built yet in this revision (work in progress; see DESIGN.md §5 for the planned monitor)"
